@@ -347,7 +347,9 @@ func checkStats(t vt.TB, tm gostatsd.Timer, pts []point, pcts []float64, mask go
 		ks := []int{(2*ap*n + 100) / 200}
 		if n == 1 {
 			ks = []int{1}
-		} else if (ap*n)%100 == 50 {
+		} else if (ap*n)%100 == 50 && ap%25 != 0 {
+			// an exact .5 tie in rational arithmetic: |p|/100 is not a binary fraction, so its product with n may land just
+			// below the half. For 25, 50, 75 and 100 the product is exact and round-half-up is unambiguous.
 			ks = append(ks, ks[0]-1)
 		}
 		for i, k := range ks {
